@@ -98,7 +98,10 @@ def main(ctx):
     total = 30000 if ctx.thorough else 3000
     static_check(
         ctx, "static", total, extra="--nopre", judge=judge, extra_stats=extra, spec_opts="--bound", extra_props=("C18dyn", "C18log", "C18pr"), search_judge=never_twice,
-        more_runs=[("static", 0, "--nopre --exhaustive 3")],
+        more_runs=[("static", 0, "--nopre --exhaustive 3"),
+                   # large frameworks (20-120 / 300 arguments, well-founded ones with start candidates of 16+ members in
+                   # any id order): "no candidate twice" is judged on the recorded log at any size
+                   ("static", 600 if ctx.thorough else 80, "--nopre --large")],
         rule="all 18 library problems x encoders x certificate flag on exhaustive small and generated frameworks; the number of SAT calls per session (= per connected component) and in total is compared with the bound of the property computed by brute force per component (|base| = number of conflict-free / admissible / complete sets of the encoder in use, |PR| = number of preferred extensions): PR <= |base|+|PR|+1, ID <= 2|base|+|PR|+2, SST/STG <= (n+2)|base|+3, CO/ST <= 2; traces replayed on Model.Solvers (same call count by construction of the replay); for every PR and ID case the RECORDED trace of the implementation is judged by the driver (`notwice`): per session = connected component (components from the extracted Graph functions, as query_comps) and per search phase (one for PR; two for ID, told apart by the search selector), the start candidate (grounded extension of the component, extracted Graph.grounded) followed by the sets decoded from the recorded Sat models (extracted Encoders.assignment_to_extension) are pairwise different as sets, and every decoded set is a base set of the component (AF.baseb, components of <= 10 arguments); counts in distribution.notwice",
         finish=False,
     )
